@@ -791,3 +791,9 @@ LEVEL_NOTE = ('Trusted: Lean kernel; axioms ⊆ {propext, Classical.choice, Quot
               'Engine.update / leaf Store.apply_update, validated on every case against a real Engine. '
               'Float times are outside the model (integer times only).')
 TECHNIQUE = 'Lean 4 proof by induction over listings and tick sequences + model/code correspondence (differential, real Engine)'
+
+
+# a timeline under mixed run_for()/update() calls, and event value objects that are due more than once
+from harness import lagclock as _lc                     # noqa: E402
+from harness.mixins import add_family as _add_family    # noqa: E402
+_add_family(globals(), _lc, 'lagclock', _lc.oracle, share=0.02)
